@@ -10,10 +10,10 @@ pub fn prop() -> Prop {
     Prop {
         id: "C10",
         level: "model_checking",
-        rule: "all streams of <=3 (thorough <=4) values over a 44-text universe (objects with the same members in another order, which `=` calls equal; strings spelled like literals, keys that are prefixes of one another, the empty key, empty collections inside a collection; (incl. whole numbers >= 2^32 spelled with and without exponent / fraction, and two objects whose printed forms coincide under the \\u+5-hex-digit spelling of non-BMP characters) (incl. unequal nested objects that differ only in where a trailing member sits: {\"a\":{},\"b\":1} / {\"a\":{\"b\":1}}) with equal-by-value spellings (0 0.0 0e0, [0,\"x\"] [0.0,\"x\"], 1 1.0 1e0 10e-1, \"a\" \"\\u0061\", 1.5 15e-1, 100 1e2, [1,{\"a\":1}] [1.0,{\"a\":1e0}], {\"a\":1} {\"a\":1.0}) and near misses (\"1\", [1], [1.5], null, true), and <=5 (thorough <=7) over a 10-text core; the same through one and two selections (also two selections sharing a name) over all streams of <=4 (thorough <=6) records where the selected member is present, null or absent; growth families of 3..1000 distinct values each arriving in three spellings; non-trivial = the stream holds a duplicate under `=` in a different spelling, or an absent-versus-null pair; distinct by construction",
+        rule: "all streams of <=3 (thorough <=4) values over a 44-text universe (objects with the same members in another order, which `=` calls equal; strings spelled like literals, keys that are prefixes of one another, the empty key, empty collections inside a collection; (incl. whole numbers >= 2^32 spelled with and without exponent / fraction, and two objects whose printed forms coincide under the \\u+5-hex-digit spelling of non-BMP characters) (incl. unequal nested objects that differ only in where a trailing member sits: {\"a\":{},\"b\":1} / {\"a\":{\"b\":1}}) with equal-by-value spellings (0 0.0 0e0, [0,\"x\"] [0.0,\"x\"], 1 1.0 1e0 10e-1, \"a\" \"\\u0061\", 1.5 15e-1, 100 1e2, [1,{\"a\":1}] [1.0,{\"a\":1e0}], {\"a\":1} {\"a\":1.0}) and near misses (\"1\", [1], [1.5], null, true), and <=5 (thorough <=7) over a 10-text core; the same through one and two selections (also two selections sharing a name) over all streams of <=4 (thorough <=6) records where the selected member is present, null or absent; growth families of 3..1000 distinct values each arriving in three spellings; non-trivial = the stream holds a duplicate under `=` in a different spelling, or an absent-versus-null pair; distinct by construction; rows whose selected values are computed (round, floor, ceil, abs, arithmetic that returns to the same value, parse of stringify, containers built around them: 14 selection sets) over all streams of 2..3 (thorough 4) values out of 16 numbers and near-numbers",
         explanation: "the `=` table of the implementation is obtained exhaustively for the universe (one run per ordered pair) and checked against reference equality, symmetry and reflexivity; the output with --unique must be the output without it minus every row equal (under that table, selection by selection, absent only equal to absent) to an earlier row",
         assumptions: COMMON_ASSUMPTIONS.to_vec(),
-        guards: vec!["command-line-respelled", "duplicate-in-other-spelling-removed", "near-miss-kept", "absent-vs-null-kept", "nested-duplicate-removed", "table-growth", "eq-table-complete"],
+        guards: vec!["computed-duplicate-removed", "command-line-respelled", "duplicate-in-other-spelling-removed", "near-miss-kept", "absent-vs-null-kept", "nested-duplicate-removed", "table-growth", "eq-table-complete"],
         budget_s: (100, 2400),
         single_worker: false,
         run,
@@ -322,4 +322,63 @@ fn run(ctx: &mut Ctx) {
         }
     }
     ctx.level_done("growth-families");
+    computed_selections(ctx);
+}
+
+/// Rows whose selected values are COMPUTED (so that equal values reach the duplicate filter through different
+/// arithmetic routes: 3 from (round 2.5), from 3.0, from (/ 6 2) ...). The rows printed without --unique are read
+/// back and compared with the reference equality (numbers by value, objects regardless of member order).
+fn computed_selections(ctx: &mut Ctx) {
+    let nums = ["3", "3.0", "3e0", "2.5", "3.4", "3.5", "-0.5", "0", "-0.0", "0.5", "6", "7.0", "-3", "\"3\"", "[3]", "[3.0]"];
+    let sels: [&[&str]; 14] = [
+        &["(round .)=r"], &["(floor .)=r"], &["(ceil .)=r"], &["(abs .)=r"], &["(* . 1)=r"], &["(/ (* . 2) 2)=r"], &["(+ (- . 0.5) 0.5)=r"], &["(parse (stringify .))=r"], &["(% . 2)=r"],
+        &["(first (push [] (round .)))=r"], &["(push [] (round .) .)=r"], &["(put {} \"v\" (floor .))=r"], &["(round .)=r", "(ceil .)=c"], &["(? (number? .) (- 0 (- 0 .)) .)=r"],
+    ];
+    let maxlen = ctx.tier.pick(3usize, 4);
+    let mut seqs: Vec<Vec<usize>> = Vec::new();
+    crate::explore::seqs_upto(nums.len(), maxlen, |s| seqs.push(s.to_vec()));
+    for (si, sel) in sels.iter().enumerate() {
+        for s in &seqs {
+            if s.len() < 2 || !ctx.mine() {
+                continue;
+            }
+            let input: String = s.iter().map(|i| format!("{}\n", nums[*i])).collect();
+            let plain_args: Vec<String> = sel.iter().map(|e| format!("--select={e}")).collect();
+            let mut uniq_args = plain_args.clone();
+            uniq_args.insert(si % (plain_args.len() + 1), "--unique".into());
+            let plain_case = Case::owned(plain_args, input.clone().into_bytes());
+            let uniq_case = Case::owned(uniq_args, input.into_bytes());
+            let plain = ctx.run(&plain_case);
+            let uniq = ctx.run(&uniq_case);
+            ctx.case_done();
+            ctx.trace_validated();
+            let sig = format!("computed {:?}", sel);
+            let (Ok(prow), Ok(urow)) = (json::parse_rows(&plain.stdout, b"\n"), json::parse_rows(&uniq.stdout, b"\n")) else {
+                ctx.violation("stdout-not-rows", &sig, &[uniq_case.clone()], "rows".into(), uniq.brief());
+                continue;
+            };
+            if !plain.res.is_ok() || !uniq.res.is_ok() || prow.len() != s.len() {
+                ctx.violation("run-failed", &sig, &[uniq_case.clone(), plain_case.clone()], format!("Ok and {} rows without --unique", s.len()), format!("{} / {}", plain.brief(), uniq.brief()));
+                continue;
+            }
+            let mut expected: Vec<V> = Vec::new();
+            for r in &prow {
+                if !expected.iter().any(|e| eval::veq(e, r)) {
+                    expected.push(r.clone());
+                }
+            }
+            if expected.len() < prow.len() {
+                ctx.nontrivial();
+                ctx.guard("computed-duplicate-removed");
+            }
+            ctx.transition(&("computed", si, expected.len(), prow.len()));
+            if urow != expected {
+                ctx.outcome("violation");
+                ctx.violation("unique-output-is-not-the-plain-output-minus-later-duplicates", &format!("{sig} {}", super::pipe::diff_kind(&expected, &urow)), &[uniq_case.clone(), plain_case.clone()], super::pipe::texts(&expected), super::pipe::texts(&urow));
+            } else {
+                ctx.outcome(if expected.len() < prow.len() { "ok-removed" } else { "ok-nothing-to-remove" });
+            }
+        }
+    }
+    ctx.level_done("computed-selections(14-selection-sets-x-all-streams-over-16-values)");
 }
